@@ -141,7 +141,32 @@ fn decode_raw(item: &anyhow::Result<text_utils::data::TrainData>) -> Val {
 }
 
 /// build the real generators over the files and drain the combined one
+/// how many items the `j`-th call of a walk skips before it takes one (`Iterator::nth(k)`): a function of the walk seed
+fn walk_step(state: &mut u64) -> usize {
+    *state = state.wrapping_mul(6364136223846793005).wrapping_add(1442695040888963407);
+    [0usize, 0, 0, 1, 2, 3, 5][((*state >> 33) % 7) as usize]
+}
+
+/// what a walk must deliver, given the stream `next()` alone delivers: the iterator contract
+/// (`nth(k)` = `k` calls of `next()` whose results are dropped, then `next()`; `skip`, `step_by`, `take` are built on it)
+fn project_walk(items: &[Val], walk: u64) -> Vec<Val> {
+    let (mut st, mut pos, mut out) = (walk, 0usize, vec![]);
+    loop {
+        pos += walk_step(&mut st);
+        if pos >= items.len() {
+            return out;
+        }
+        out.push(items[pos].clone());
+        pos += 1;
+    }
+}
+
 fn drain(files: &[PathBuf], strat: i64, seed: u64, cap: usize, raw: bool) -> Val {
+    drain_walk(files, strat, seed, cap, raw, None)
+}
+
+/// `walk = Some(w)`: the generator is consumed through `nth(k)` calls with the skips of `walk_step` instead of `next()`
+fn drain_walk(files: &[PathBuf], strat: i64, seed: u64, cap: usize, raw: bool, walk: Option<u64>) -> Val {
     let gens: Result<Vec<TrainDataGenerator>, _> = files
         .iter()
         .map(|f| {
@@ -157,7 +182,14 @@ fn drain(files: &[PathBuf], strat: i64, seed: u64, cap: usize, raw: bool) -> Val
         Ok(g) => {
             let len = g.len();
             let mut items = vec![];
-            for (data, tag) in g {
+            let mut g = g;
+            let mut st = walk;
+            loop {
+                let got = match &mut st {
+                    None => g.next(),
+                    Some(w) => g.nth(walk_step(w)),
+                };
+                let Some((data, tag)) = got else { break };
                 if raw {
                     items.push(Val::L(vec![Val::u(tag), decode_raw(&data)]));
                 } else {
@@ -179,7 +211,11 @@ fn is_hang(v: &Val) -> bool {
 
 /// `drain`, with the spin marker of `Counted` turned into a value
 fn drain_caught(files: &[PathBuf], strat: i64, seed: u64, cap: usize, raw: bool) -> Val {
-    match std::panic::catch_unwind(std::panic::AssertUnwindSafe(|| drain(files, strat, seed, cap, raw))) {
+    drain_caught_walk(files, strat, seed, cap, raw, None)
+}
+
+fn drain_caught_walk(files: &[PathBuf], strat: i64, seed: u64, cap: usize, raw: bool, walk: Option<u64>) -> Val {
+    match std::panic::catch_unwind(std::panic::AssertUnwindSafe(|| drain_walk(files, strat, seed, cap, raw, walk))) {
         Ok(v) => v,
         Err(e) if e.downcast_ref::<Spin>().is_some() => Val::L(vec![Val::I(-778), Val::I(0)]),
         Err(_) => Val::panic(),
@@ -1458,9 +1494,32 @@ impl C07 {
     /// with a longer limit so that a loaded machine cannot produce a false hang; endless
     /// pulling of an exhausted source is reported as a hang at once (no thread stays behind).
     fn watched(&self, files: &[PathBuf], strat: i64, seed: u64, cap: usize, raw: bool) -> (Val, bool) {
+        self.watched_walk(files, strat, seed, cap, raw, None)
+    }
+
+    /// the second drain of a case: the same stream must come out however it is consumed. Every other case walks the
+    /// generator with `nth(k)` (what `skip` / `step_by` / `take` of the loader call); the result is compared with the
+    /// projection of the first drain (`project_walk`).
+    fn second_drain(&self, files: &[PathBuf], strat: i64, seed: u64, cap: usize, raw: bool, first_items: &[Val]) -> (Option<bool>, Val, bool) {
+        let walk = if (seed ^ (strat as u64) ^ first_items.len() as u64) % 2 == 0 { Some(seed.wrapping_mul(31).wrapping_add(7)) } else { None };
+        let (second, stuck) = self.watched_walk(files, strat, seed, cap, raw, walk);
+        if is_hang(&second) {
+            return (None, second, stuck);
+        }
+        let same = match (walk, second.as_l()) {
+            (None, _) => None,
+            (Some(w), Some(l)) if l.first() == Some(&Val::I(1)) => {
+                Some(l.get(1).and_then(|x| x.as_l()).map(|x| x.to_vec()) == Some(project_walk(first_items, w)))
+            }
+            _ => Some(false),
+        };
+        (same, second, stuck)
+    }
+
+    fn watched_walk(&self, files: &[PathBuf], strat: i64, seed: u64, cap: usize, raw: bool, walk: Option<u64>) -> (Val, bool) {
         let spin = Val::L(vec![Val::I(-778), Val::I(0)]);
         let f1 = files.to_vec();
-        let v = with_timeout(TIMEOUT_MS, move || drain_caught(&f1, strat, seed, cap, raw));
+        let v = with_timeout(TIMEOUT_MS, move || drain_caught_walk(&f1, strat, seed, cap, raw, walk));
         if v == spin {
             return (Val::hang(), false);
         }
@@ -1469,7 +1528,7 @@ impl C07 {
         }
         let f2 = files.to_vec();
         let confirm = if self.child { CHILD_CONFIRM_MS } else { CONFIRM_MS };
-        let v = with_timeout(confirm, move || drain_caught(&f2, strat, seed, cap, raw));
+        let v = with_timeout(confirm, move || drain_caught_walk(&f2, strat, seed, cap, raw, walk));
         if v == spin {
             return (Val::hang(), true);
         }
@@ -1583,12 +1642,15 @@ impl C07 {
         if nl - files.len() >= 2 && (errs > 0 || open_end || all.iter().any(|c| *c >= 0x80 || *c == b'\\')) {
             tags.push("nt".into());
         }
-        let (second, stuck) = self.watched(&paths, strat, seed, cap, true);
+        let (walked, second, stuck) = self.second_drain(&paths, strat, seed, cap, true, items);
         self.hung |= stuck;
         if is_hang(&second) {
             return Some((second, tags));
         }
-        let rep = second == first;
+        if walked.is_some() {
+            tags.push("walk".into());
+        }
+        let rep = walked.unwrap_or_else(|| second == first);
         Some((Val::L(vec![Val::I(1), fl[1].clone(), Val::b(rep), fl[2].clone()]), tags))
     }
 
@@ -1806,12 +1868,17 @@ impl Prop for C07 {
         if l.first() != Some(&Val::I(1)) {
             return Some((first.clone(), tags));
         }
-        let (second, stuck) = self.watched(&files, strat, seed, cap, false);
+        let first_items: Vec<Val> = l.get(1).and_then(|x| x.as_l()).map(|x| x.to_vec()).unwrap_or_default();
+        let (walked, second, stuck) = self.second_drain(&files, strat, seed, cap, false, &first_items);
         self.hung |= stuck;
         if is_hang(&second) {
             return Some((second, tags));
         }
-        let rep = second == first;
+        let mut tags = tags;
+        if walked.is_some() {
+            tags.push("walk".into());
+        }
+        let rep = walked.unwrap_or_else(|| second == first);
         Some((
             Val::L(vec![Val::I(1), l[1].clone(), Val::b(rep), l[2].clone()]),
             tags,
